@@ -380,6 +380,40 @@ Proof.
 Qed.
 
 (* ================================================================================================= *)
+(* quiet pieces: tokens — no byte in a comment, kept verbatim                                        *)
+(* ================================================================================================= *)
+Definition nocmt (zs : lz) : Prop := forallb (fun z => negb (is_comment (snd z))) zs = true.
+
+Lemma nocmt_app a b : nocmt a -> nocmt b -> nocmt (a ++ b).
+Proof. unfold nocmt. intros Ha Hb. rewrite forallb_app, Ha, Hb. reflexivity. Qed.
+
+Lemma nocmt_tag l t : is_comment l = false -> nocmt (tag l t).
+Proof. intro H. unfold nocmt, tag. induction t as [|b t IH]; [reflexivity|]. cbn [map forallb snd]. rewrite H, IH. reflexivity. Qed.
+
+Definition qt (k : kind) (F : bytes -> Prop) (t : bytes) : Prop :=
+  exists zs, txt zs = t /\ piece F zs /\ summ k zs t /\ nocmt zs.
+
+Lemma qt_til k F t : qt k F t -> til k F t t.
+Proof. intros (zs & T & P & S & _). exists zs. auto. Qed.
+
+Lemma qt_app k1 k2 (F1 F2 : bytes -> Prop) t1 t2 :
+  qt k1 F1 t1 -> qt k2 F2 t2 -> (forall r, F2 r -> F1 (t2 ++ r)) -> qt (mul k1 k2) F2 (t1 ++ t2).
+Proof.
+  intros (z1 & T1 & P1 & S1 & Q1) (z2 & T2 & P2 & S2 & Q2) H. exists (z1 ++ z2).
+  split; [rewrite txt_app, T1, T2; reflexivity|]. split; [|split; [apply summ_app; assumption|apply nocmt_app; assumption]].
+  apply (piece_app F1 F2); [assumption|assumption|]. rewrite T2. exact H.
+Qed.
+
+Lemma qt_app_any k1 k2 (F2 : bytes -> Prop) t1 t2 : qt k1 anyf t1 -> qt k2 F2 t2 -> qt (mul k1 k2) F2 (t1 ++ t2).
+Proof. intros H1 H2. apply (qt_app k1 k2 anyf F2); [assumption|assumption|]. intros; exact I. Qed.
+
+Lemma qt_weaken k (F G : bytes -> Prop) t : (forall r, G r -> F r) -> qt k F t -> qt k G t.
+Proof. intros H (zs & T & P & S). exists zs. split; [exact T|]. split; [apply (piece_weaken F G); assumption|exact S]. Qed.
+
+Lemma qt_any k (F : bytes -> Prop) t : qt k anyf t -> qt k F t.
+Proof. apply qt_weaken. intros; exact I. Qed.
+
+(* ================================================================================================= *)
 (* leaves                                                                                            *)
 (* ================================================================================================= *)
 
@@ -406,17 +440,22 @@ Proof.
   apply negb_true_iff in Hp. rewrite Hp. cbn [andb]. destruct f; reflexivity.
 Qed.
 
-Lemma til_ws w : ws_tok w -> til CB anyf w w.
+Lemma qt_ws w : ws_tok w -> qt CB anyf w.
 Proof.
   intro H. exists (tag LNormal w). split; [apply txt_tag|]. split; [apply piece_nq, plain_nq, ws_plain, H|].
+  split; [|apply nocmt_tag; reflexivity].
   split; [rewrite outz_tag_ncr by reflexivity; apply ncr_nocr, plain_nocr, ws_plain, H|].
   split; [intro f; apply flag_ws, H|apply plain_ends_lf, ws_plain, H].
 Qed.
 
+Lemma til_ws w : ws_tok w -> til CB anyf w w.
+Proof. intro H. apply qt_til, qt_ws, H. Qed.
+
 (* ---- plain tokens ---------------------------------------------------------------------------------- *)
-Lemma til_plain b t : plain (b :: t) -> blank b = false -> til CS anyf (b :: t) (b :: t).
+Lemma qt_plain b t : plain (b :: t) -> blank b = false -> qt CS anyf (b :: t).
 Proof.
   intros Hp Hb. exists (tag LNormal (b :: t)). split; [apply txt_tag|]. split; [apply piece_nq, plain_nq, Hp|].
+  split; [|apply nocmt_tag; reflexivity].
   split; [rewrite outz_tag_ncr by reflexivity; apply ncr_nocr, plain_nocr, Hp|].
   split; [|split; [discriminate|apply plain_ends_lf, Hp]].
   intros f Hf. pose proof (plain_no_nl LNormal (b :: t) Hp) as Hn. cbn [tag map] in *. rewrite flag_cons.
@@ -425,9 +464,15 @@ Proof.
   unfold flag_step. rewrite Hz. cbn [fst snd is_comment]. rewrite Hb. destruct f; congruence.
 Qed.
 
+Lemma til_plain b t : plain (b :: t) -> blank b = false -> til CS anyf (b :: t) (b :: t).
+Proof. intros Hp Hb. apply qt_til, qt_plain; assumption. Qed.
+
 (* one punctuation byte *)
+Lemma qt_byte b : plainb b = true -> blank b = false -> qt CS anyf [b].
+Proof. intros Hp Hb. apply qt_plain; [unfold plain; cbn [forallb]; rewrite Hp; reflexivity|exact Hb]. Qed.
+
 Lemma til_byte b : plainb b = true -> blank b = false -> til CS anyf [b] [b].
-Proof. intros Hp Hb. apply til_plain; [unfold plain; cbn [forallb]; rewrite Hp; reflexivity|exact Hb]. Qed.
+Proof. intros Hp Hb. apply qt_til, qt_byte; assumption. Qed.
 
 (* ---- newline ------------------------------------------------------------------------------------------ *)
 Lemma newline_nq nl : newline_tok nl -> forallb nqb nl = true.
